@@ -45,6 +45,8 @@ class fixed_scalar_array(base_array):
 
     def __setitem__(self, idx, value):
         if isinstance(idx, slice):
+            if idx.step not in (None, 1):
+                raise ProphyError("assignment to extended slice not supported")
             self.__setslice__(idx.start, idx.stop, value)
         else:
             value = self._TYPE._check(value)
@@ -96,6 +98,8 @@ class bound_scalar_array(base_array):
 
     def __setitem__(self, idx, value):
         if isinstance(idx, slice):
+            if idx.step not in (None, 1):
+                raise ProphyError("assignment to extended slice not supported")
             self.__setslice__(idx.start, idx.stop, value)
         else:
             value = self._TYPE._check(value)
